@@ -44,7 +44,7 @@ theorem ProvTie_recreate (s : Prov.Sess) (t : Nat) : recreateGen s t = recreate 
     obtain ⟨g, m⟩ := gm
     simp only []
     cases h2 : Sorter.fromDagAndSorter g isTaskV prio0 s.so with
-    | error e => simp [handlerRun]
+    | error e => simp [handlerRun, renewFailMarks]
     | ok so => rfl
 
 theorem slots_resolve (fs : FS) (slots : List Slot) :
